@@ -114,28 +114,34 @@ static std::string residueJson(const XalanTransformer&) { return ""; }
 
 struct Outcome { int status; std::string out; bool errEmpty; std::string msg; };
 
-// the same call on a newly constructed transformer; cached: the real code runs once per tuple
-static std::map<std::string, Outcome> freshCache;
+// the same call on a newly constructed transformer.  The result is cached, but every 8th use of a tuple runs the
+// real code again (the newest result is the one logged), so that "what a fresh transformer returns" is itself
+// observed repeatedly over the life of the process: the props script hands all distinct Fresh events to TLC in
+// one extra execution, where two different answers for one tuple are rejected.
+struct FreshEntry { Outcome o; unsigned uses; };
+static std::map<std::string, FreshEntry> freshCache;
+static Outcome runFresh(const std::string& ss, const std::string& src, const Params& params, const Fns& fns) {
+    Outcome o;
+    XalanTransformer t;
+    t.setWarningStream(0);
+    for (auto& kv : params) if (kv.second != "none") setParam(t, kv.first, kv.second);
+    for (auto& kv : fns) if (kv.second) installFn(t, kv.first);
+    std::istringstream xml(text(pool.src, src));
+    SSInput xsl(ss);
+    std::ostringstream out;
+    XSLTInputSource xmlIn(&xml);
+    o.status = t.transform(xmlIn, xsl.src, XSLTResultTarget(&out));
+    o.out = out.str();
+    o.errEmpty = errEmpty(t);
+    o.msg = t.getLastError();
+    return o;
+}
 static const Outcome& fresh(const std::string& ss, const std::string& src, const Params& params, const Fns& fns) {
     const std::string key = ss + "|" + src + "|" + paramsJson(params) + "|" + fnsJson(fns);
     auto it = freshCache.find(key);
-    if (it != freshCache.end()) return it->second;
-    Outcome o;
-    {
-        XalanTransformer t;
-        t.setWarningStream(0);
-        for (auto& kv : params) if (kv.second != "none") setParam(t, kv.first, kv.second);
-        for (auto& kv : fns) if (kv.second) installFn(t, kv.first);
-        std::istringstream xml(text(pool.src, src));
-        SSInput xsl(ss);
-        std::ostringstream out;
-        XSLTInputSource xmlIn(&xml);
-        o.status = t.transform(xmlIn, xsl.src, XSLTResultTarget(&out));
-        o.out = out.str();
-        o.errEmpty = errEmpty(t);
-        o.msg = t.getLastError();
-    }
-    return freshCache.emplace(key, o).first->second;
+    if (it == freshCache.end()) it = freshCache.emplace(key, FreshEntry{runFresh(ss, src, params, fns), 0}).first;
+    else if (++it->second.uses % 8 == 0) it->second.o = runFresh(ss, src, params, fns);
+    return it->second.o;
 }
 
 static void runCase(const J& c) {
